@@ -589,6 +589,10 @@ class YP(object):
             pass
         finally:
             sys.setrecursionlimit(old_recursionlimit)
+            # also when the projection function raised: leave no suspended search (and
+            # therefore no bound variables) behind
+            if hasattr(query, 'close'):
+                query.close()
         return result
 
     def match_dynamic(self, name, args):
